@@ -1,7 +1,8 @@
-(* C14: the hypothesis `class = 0` of the correctness theorems cannot be dropped: for every
-   recorded class a concrete query (the witness of known_findings.d/C14.json, which the check
-   runs on the real Database on every run) on which the faithful implementation model returns
-   something else than the reference semantics demands.  All by computation. *)
+(* C14: (a) the one remaining class hypothesis cannot be dropped: a concrete query of class 13
+   (the witness of known_findings.d/C14.json, re-run on the real Database by every check) on
+   which the faithful implementation model contradicts the reference; (b) the former witnesses of
+   classes 1..12 (defects repaired in /repo) are now computed correctly by the model;
+   (c) non-vacuity examples.  All by computation. *)
 From Coq Require Import ZArith List Bool.
 From TV Require Import Model.SqlSpec Model.PredImpl Model.PredClass.
 Import ListNotations.
@@ -17,79 +18,50 @@ Definition c1_eq_1 : expr := ECmp CEq (ECol 1) (ELit (VInt 1)).
 Definition where_wrong (sty k : Z) (e : expr) (t : table) : Prop :=
   cls_where sty e t = k /\ defined_on e t = true /\
   model_where (parsed sty e) t <> MOut (QRows (spec_rows e t)).
-Definition select_wrong (sty k : Z) (e : expr) (t : table) : Prop :=
-  cls_select sty e t = k /\ defined_on e t = true /\
-  model_select (parsed sty e) t <> MOut (QVals (spec_vals e t)).
+Definition where_right (sty : Z) (e : expr) (t : table) : Prop :=
+  cls_where sty e t = 0 /\ defined_on e t = true /\
+  model_where (parsed sty e) t = MOut (QRows (spec_rows e t)).
+Definition select_right (sty : Z) (e : expr) (t : table) : Prop :=
+  cls_select sty e t = 0 /\ defined_on e t = true /\
+  model_select (parsed sty e) t = MOut (QVals (spec_vals e t)).
 
-Ltac refute := vm_compute; repeat split; discriminate.
+(* 13: t(id, c1, c2) = (1, 5, NULL), (2, 5, 1);  c1 NOT BETWEEN (c2 + 1) AND 0 is TRUE on both rows
+   (5 > 0), the implementation drops row 1 *)
+Definition T13 : table := [[VInt 1; VInt 5; VNull]; [VInt 2; VInt 5; VInt 1]].
+Definition e13 : expr := EBetween true (ECol 1) (EArith AAdd (ECol 2) (ELit (VInt 1))) (ELit (VInt 0)).
+Lemma class13_refuted : where_wrong 0 13 e13 T13.
+Proof. vm_compute. repeat split; discriminate. Qed.
 
-(* 1: WHERE NOT (c1 = 1) returns all three rows (only row 2 qualifies) *)
-Lemma class1_refuted : where_wrong 0 1 (ENot c1_eq_1) T3.
-Proof. refute. Qed.
-(* 2: WHERE c1 = NULL returns the row with c1 NULL *)
-Lemma class2_refuted : where_wrong 0 2 (ECmp CEq (ECol 1) (ELit VNull)) T3.
-Proof. refute. Qed.
-(* 3: WHERE c1 IN (1, NULL) returns the row with c1 NULL as well *)
-Lemma class3_refuted : where_wrong 0 3 (EIn false (ECol 1) [ELit (VInt 1); ELit VNull]) T3.
-Proof. refute. Qed.
-(* 4: WHERE c1 NOT IN (2, NULL) returns row 1 (never TRUE in SQL) *)
-Lemma class4_refuted : where_wrong 0 4 (EIn true (ECol 1) [ELit (VInt 2); ELit VNull]) T3.
-Proof. refute. Qed.
-(* 5: WHERE (c1 = 1) IS NULL returns nothing (row 3 qualifies) *)
-Lemma class5_refuted : where_wrong 0 5 (EIsNull false c1_eq_1) T3.
-Proof. refute. Qed.
-(* 6: SELECT (c1 = 1) gives FALSE for the NULL row *)
-Lemma class6_refuted : select_wrong 0 6 c1_eq_1 T3.
-Proof. refute. Qed.
-(* 7: WHERE NULL <> 1 is folded to TRUE: all rows *)
-Lemma class7_refuted : where_wrong 0 7 (ECmp CNe (ELit VNull) (ELit (VInt 1))) T3.
-Proof. refute. Qed.
-(* 8: WHERE (c1 = 1) AND FALSE: the query fails *)
-Lemma class8_refuted : where_wrong 0 8 (EAnd c1_eq_1 (ELit (VBool false))) T3.
-Proof. refute. Qed.
-(* 9: '%ba' LIKE '%a' is FALSE *)
-Lemma class9_refuted :
-  where_wrong 0 9 (ELike false (ECol 1) (ELit (VText [37; 97])))
-    [[VInt 1; VText [37; 98; 97]]; [VInt 2; VText [98; 97]]].
-Proof. refute. Qed.
-(* 10: 1e-17 IN (0.0) is TRUE *)
-Lemma class10_refuted :
-  where_wrong 0 10 (EIn false (ECol 1) [ELit (VFloat 0)])
-    [[VInt 1; VFloat 4352464011485697175]; [VInt 2; VFloat 0]].
-Proof. refute. Qed.
-(* 11: c1 > -9223372036854775808 is FALSE for every row *)
-Lemma class11_refuted :
-  where_wrong 0 11 (ECmp CGt (ECol 1) (ELit (VInt (-9223372036854775808))))
-    [[VInt 1; VInt 0]; [VInt 2; VInt (-5)]].
-Proof. refute. Qed.
-(* 12: NOT c1 = 1 (printed without parentheses) is read as (NOT c1) = 1 *)
-Lemma class12_refuted : where_wrong 1 12 (ENot c1_eq_1) T3.
-Proof. refute. Qed.
+(* the witnesses of the repaired findings 1..12 *)
+Lemma repaired_witnesses :
+  where_right 0 (ENot c1_eq_1) T3 /\
+  where_right 0 (ECmp CEq (ECol 1) (ELit VNull)) T3 /\
+  where_right 0 (EIn false (ECol 1) [ELit (VInt 1); ELit VNull]) T3 /\
+  where_right 0 (EIn true (ECol 1) [ELit (VInt 2); ELit VNull]) T3 /\
+  where_right 0 (EIsNull false c1_eq_1) T3 /\
+  select_right 0 c1_eq_1 T3 /\
+  where_right 0 (ECmp CNe (ELit VNull) (ELit (VInt 1))) T3 /\
+  where_right 0 (EAnd c1_eq_1 (ELit (VBool false))) T3 /\
+  where_right 0 (ELike false (ECol 1) (ELit (VText [37; 97])))
+    [[VInt 1; VText [37; 98; 97]]; [VInt 2; VText [98; 97]]] /\
+  where_right 0 (EIn false (ECol 1) [ELit (VFloat 0)])
+    [[VInt 1; VFloat 4352464011485697175]; [VInt 2; VFloat 0]] /\
+  where_right 0 (ECmp CGt (ECol 1) (ELit (VInt (-9223372036854775808))))
+    [[VInt 1; VInt 0]; [VInt 2; VInt (-5)]] /\
+  where_right 1 (ENot c1_eq_1) T3.
+Proof. vm_compute. repeat split. Qed.
 
-Lemma known_classes_refuted :
-  (exists e t, where_wrong 0 1 e t) /\ (exists e t, where_wrong 0 2 e t) /\
-  (exists e t, where_wrong 0 3 e t) /\ (exists e t, where_wrong 0 4 e t) /\
-  (exists e t, where_wrong 0 5 e t) /\ (exists e t, select_wrong 0 6 e t) /\
-  (exists e t, where_wrong 0 7 e t) /\ (exists e t, where_wrong 0 8 e t) /\
-  (exists e t, where_wrong 0 9 e t) /\ (exists e t, where_wrong 0 10 e t) /\
-  (exists e t, where_wrong 0 11 e t) /\ (exists e t, where_wrong 1 12 e t).
-Proof.
-  repeat split; do 2 eexists;
-    first [ exact class1_refuted | exact class2_refuted | exact class3_refuted | exact class4_refuted
-          | exact class5_refuted | exact class6_refuted | exact class7_refuted | exact class8_refuted
-          | exact class9_refuted | exact class10_refuted | exact class11_refuted | exact class12_refuted ].
-Qed.
-
-(* non-vacuity of the positive theorems: queries outside every class, with NULLs, on which the
-   reference and the model return something non-trivial *)
+(* non-vacuity of the positive theorems: queries over NULLs, with NOT and negated forms, on which
+   the reference returns something non-trivial *)
 Definition good1 : expr :=
-  EOr (EAnd (ECmp CGe (ECol 1) (ELit (VInt 1))) (ECmp CLt (ECol 2) (ELit (VFloat 4612811918334230528))))
-      (EIsNull false (ECol 3)).
+  EOr (EAnd (ECmp CGe (ECol 1) (ELit (VInt 1))) (ENot (ECmp CLt (ECol 2) (ELit (VFloat 4612811918334230528)))))
+      (EIsNull false (ECmp CEq (ECol 3) (ELit (VText [97])))).
 Definition good2 : expr :=
-  EAnd (EBetween false (ECol 1) (ELit (VInt 0)) (ELit (VInt 2)))
-       (EOr (ELike false (ECol 3) (ELit (VText [97; 95; 99]))) (EIn false (ECol 2) [ELit (VInt 1); ELit (VFloat 4612811918334230528)])).
+  EAnd (EBetween true (ECol 1) (ELit (VInt 2)) (ELit VNull))
+       (EOr (ELike true (ECol 3) (ELit (VText [37; 100]))) (EIn true (ECol 2) [ELit (VInt 1); ELit VNull])).
 Lemma good_examples :
-  cls_where 0 good1 T3 = 0 /\ defined_on good1 T3 = true /\ spec_rows good1 T3 = [1; 0; 1] /\
-  cls_where 0 good2 T3 = 0 /\ defined_on good2 T3 = true /\ spec_rows good2 T3 = [1; 1; 0] /\
-  cls_select 0 (EIsNull true (ECol 1)) T3 = 0 /\ spec_vals (EIsNull true (ECol 1)) T3 = [1; 1; 0].
+  cls_where 0 good1 T3 = 0 /\ defined_on good1 T3 = true /\ spec_rows good1 T3 = [0; 1; 1] /\
+  spec_vals good1 T3 = [0; 1; 1] /\
+  cls_where 0 good2 T3 = 0 /\ defined_on good2 T3 = true /\ spec_rows good2 T3 = [1; 0; 0] /\
+  spec_vals good2 T3 = [1; 0; 2].
 Proof. vm_compute. repeat split. Qed.
